@@ -1340,27 +1340,40 @@ func checkAlgorithmTables(c *Ctx, r *Report) {
 
 func checkDriverOrder(c *Ctx, r *Report, tr map[string]*trSite) {
 	m := c.findCtor()
-	r.Rule("driver-order", "open session ≺ RAKP1/2 ≺ RAKP3/4 ≺ session; RAKP messages carry the BMC's session ID from the Open Session Response; the session's LocalID/RemoteID are the console's and BMC's IDs from that response", 6)
+	r.Rule("driver-order", "open session ≺ RAKP1/2 ≺ RAKP3/4 ≺ session; the Open Session Request and RAKP Message 1 carry the caller's privilege level, lookup mode and username; RAKP messages carry the BMC's session ID from the Open Session Response; the session's LocalID/RemoteID are the console's and BMC's IDs from that response", 7)
 	if m == nil || m.OpenCall == nil || m.R1Call == nil || m.R3Call == nil {
 		r.Lost("handshake calls in the session constructor")
 		return
 	}
 	name := c.FnName(m.Fn)
 	r.Check(mustPrecede(m.Fn, m.OpenCall, m.R1Call) && mustPrecede(m.Fn, m.R1Call, m.R3Call), name+"|open ≺ rakp1 ≺ rakp3", m.OpenCall.Pos(), "ordered on every path", "handshake exchanges are not ordered open ≺ RAKP1 ≺ RAKP3 on every path")
+	// a field of the caller's options, read where a request is built
+	fromOpts := func(v ssa.Value, src string) bool {
+		ld, isLd := v.(*ssa.UnOp)
+		if !isLd || ld.Op != token.MUL {
+			return false
+		}
+		if apOf(ld.X).Root == ssa.Value(m.Opts) && apOf(ld.X).SelString() == src {
+			return true
+		}
+		root, last := canonRootSel(ld.X)
+		return root == ssa.Value(m.Opts) && last == src
+	}
+	// Open Session Request: the privilege level asked for is the caller's
+	if reqLit := c.openRequestLiteral(m); reqLit != nil {
+		f, _, _ := complitFieldsAlloc(reqLit)
+		r.Check(fromOpts(f["MaxPrivilegeLevel"], "MaxPrivilegeLevel"), name+"|OpenSessionReq.MaxPrivilegeLevel", reqLit.Pos(), "from the caller's options", "the Open Session Request does not ask for the caller's maximum privilege level")
+	} else {
+		r.Unk(name+"|OpenSessionReq literal", m.OpenCall.Pos(), "the Open Session Request is not a composite literal")
+	}
 	// RAKP1 literal: ManagedSystemSessionID ← openRsp.ManagedSystemSessionID, plus opts-derived fields
 	if al, ok := m.M1.(*ssa.Alloc); ok {
 		f, _, _ := complitFieldsAlloc(al)
 		r.Check(fieldLoadOf(f["ManagedSystemSessionID"], m.OpenRsp, "ManagedSystemSessionID"), name+"|RAKP1.ManagedSystemSessionID", al.Pos(), "from the Open Session Response", "RAKP Message 1 is not addressed to the session ID the BMC returned in the Open Session Response")
 		okOpts := true
 		for fld, src := range map[string]string{"PrivilegeLevelLookup": "PrivilegeLevelLookup", "MaxPrivilegeLevel": "MaxPrivilegeLevel", "Username": "Username"} {
-			v := f[fld]
-			ld, isLd := v.(*ssa.UnOp)
-			if !isLd {
+			if !fromOpts(f[fld], src) {
 				okOpts = false
-			} else if apOf(ld.X).Root != ssa.Value(m.Opts) || apOf(ld.X).SelString() != src {
-				if root, last := canonRootSel(ld.X); root != ssa.Value(m.Opts) || last != src {
-					okOpts = false
-				}
 			}
 		}
 		r.Check(okOpts, name+"|RAKP1 options", al.Pos(), "lookup mode, level and username from the caller's options", "RAKP Message 1 fields do not come from the caller's options")
